@@ -254,12 +254,21 @@ def _(dsw, S, p, v):
     return [r[0], r[1], r[2], r[3]]
 
 
+# "adopt" operations: the object the library hands back becomes the shared argument of later calls (harness-side
+# assignment).  If the library keeps a reference to what it returned (a cache, a reused buffer), a later in-place arc
+# removal or any later call on that object shows up as a difference from the fresh interpreter.
+ADOPT = {"get_complete_accessor": "acc", "connect_valid_graph": "acc", "create_random_shuffles": "table",
+         "find_vertices": "mask"}
+
+
 def run_op(dsw, S, name, p, verbose=False):
     """Returns canonical result or {'exc': type}."""
     fn = OPS[name][0]
     try:
         with contextlib.redirect_stdout(io.StringIO()), clock.budget(STEP_BUDGET):
-            return canon(fn(dsw, S, p, verbose))
+            raw = fn(dsw, S, p, verbose)
+            S.last_raw = raw
+            return canon(raw)
     except clock.BudgetExceeded:
         # e.g. encode on a graph that arc removal has left with an information-free cycle: outside every property, but it
         # must not hang the harness; the logical clock makes the outcome identical in the fresh interpreter
@@ -330,7 +339,7 @@ WEIGHTS = [("encode", 6), ("decode", 5), ("repair_dna", 4), ("set_vt", 2), ("bit
            ("connect_coding_graph", 3), ("approximate_capacity", 3), ("calculate_intersection_score", 2),
            ("create_random_shuffles", 2), ("accessor_to_latter_map", 2), ("latter_map_to_accessor", 2),
            ("accessor_to_adjacency_matrix", 1), ("adjacency_matrix_to_accessor", 1), ("obtain_vertices", 1),
-           ("obtain_leaf_vertices", 2), ("get_complete_accessor", 1), ("path_matching", 2), ("remove_useless", 2),
+           ("obtain_leaf_vertices", 2), ("get_complete_accessor", 3), ("path_matching", 2), ("remove_useless", 2),
            ("filter_valid", 2), ("remove_nasty_arc", 4)]
 
 
@@ -366,7 +375,7 @@ def _params(rng, name, S):
     if name == "calculate_intersection_score":
         return dict(ins=rng.random() < 0.5, dele=rng.random() < 0.5)
     if name == "create_random_shuffles":
-        return dict(seed=rng.getrandbits(32))
+        return dict(seed=rng.getrandbits(32), adopt=rng.random() < 0.5)
     if name == "latter_map_to_accessor":
         return dict(t=rng.choice([None, None, 1, 2]))
     if name == "obtain_leaf_vertices":
@@ -380,6 +389,8 @@ def _params(rng, name, S):
         return dict(last=rng.random() < 0.5)
     if name == "remove_nasty_arc":
         return dict(it=rng.randint(0, 3), ins=rng.random() < 0.5, dele=rng.random() < 0.5)
+    if name in ADOPT:
+        return dict(adopt=rng.random() < 0.5)
     return {}
 
 
@@ -455,6 +466,21 @@ def check_history(ctx, case):
                 S.check = oracles.vt(strand, 4)
         if in_place:
             ctx.cls("in-place removal followed by further calls")
+        if name in ADOPT and p.get("adopt") and not (isinstance(r_live, dict) and "exc" in r_live):
+            raw = getattr(S, "last_raw", None)
+            if isinstance(raw, np.ndarray):
+                if ADOPT[name] == "acc" and raw.shape == S.acc.shape:
+                    S.acc = raw            # the very object the library returned
+                    S.lm = {int(v): [int(w) for w in raw[v] if w >= 0] for v in range(len(raw)) if (raw[v] >= 0).any()}
+                    if not (raw[S.start] >= 0).any() and (raw >= 0).any():
+                        S.start = int(np.nonzero((raw >= 0).any(axis=1))[0][0])
+                    ctx.cls("adopted a returned accessor as the shared accessor")
+                elif ADOPT[name] == "table" and raw.shape == S.table.shape:
+                    S.table = raw
+                    ctx.cls("adopted a returned table as the shared table")
+                elif ADOPT[name] == "mask" and raw.shape == S.mask.shape:
+                    S.mask = raw
+                    ctx.cls("adopted a returned mask as the shared mask")
     # fresh-interpreter oracle: the recorded calls, reversed order, one fresh process
     order = list(range(len(recs)))[::-1]
     fresh, err = fresh_run([recs[i] for i in order])
@@ -499,6 +525,8 @@ def floors(agg, tier):
         out.append("fresh-interpreter replays: %d < 100" % m.get("fresh-interpreter replays", 0))
     if c.get("in-place removal followed by further calls", 0) < 100:
         out.append("in-place removals: %d < 100" % c.get("in-place removal followed by further calls", 0))
+    if c.get("adopted a returned accessor as the shared accessor", 0) < 30:
+        out.append("adopted accessors: %d < 30" % c.get("adopted a returned accessor as the shared accessor", 0))
     if c.get("outcome|exception", 0) < 50:
         out.append("calls ending in an exception: %d < 50" % c.get("outcome|exception", 0))
     return out
